@@ -30,6 +30,16 @@ CLAIMED = {
         note="inputs < 2^40 ms; Go int is 64-bit",
         technique="Coq proof (lia over Z.quot) + differential correspondence check against the extracted model",
         ref="DESIGN.md section 6, C08"),
+    "C11": dict(
+        text="Coq theorems over the byte-level model of NewFromFen / ToFen (Go UTF-8 decoding, strings.Split, strconv.Atoi, "
+             "unicode.IsDigit as an arbitrary table, uint8 cursor arithmetic): for EVERY byte string parsing never panics; for every "
+             "position satisfying the C10 invariant (hash consistent, ply parity) parse(print p) = p in all ten fields; every "
+             "syntactically canonical FEN parses and re-prints to itself, and printed FENs are canonical. Tied to the code by "
+             "differential runs over printed FENs, structured mutants and raw bytes (whole struct + re-printed text compared); the "
+             "oracle checks no-panic and the round trip on the implementation alone.",
+        note="counters within their byte widths (full-move number <= 128, half-move clock <= 255); unicode.IsDigit table generated from the toolchain",
+        technique="Coq proof (byte-level parser/printer inverse, totality by induction over runes) + differential correspondence check",
+        ref="DESIGN.md section 6, C11"),
     "C14": dict(
         text="Coq theorems over the Gallina transliteration of Get/PotentiallySave/Reset (bucket scan, replacement rule, packed "
              "age/bound byte, int16 mate adjustment) for ALL operation sequences from the empty table (induction with a ghost log of "
